@@ -4,7 +4,7 @@ from typing_extensions import Self
 
 from ..linalg.decomposer import Decomposer
 from ..utils.data_types import DataArray, DataObject
-from ..utils.sanity_checks import assert_not_complex
+from ..utils.sanity_checks import assert_not_complex, sanity_check_n_modes
 from .base_model_single_set import BaseModelSingleSet
 from .eof import EOF
 
@@ -198,13 +198,33 @@ class OPA(BaseModelSingleSet):
         # -> target (feature1 x dummy)
 
         # Solve the symmetric eigenvalue problem
-        eigensolver = Decomposer(
-            n_modes=self._params["n_modes"], flip_signs=False, solver="full"
+        # NOTE: an SVD would return the absolute values of negative eigenvalues,
+        # and order the modes by them
+        n_modes = self._params["n_modes"]
+        sanity_check_n_modes(n_modes)
+        if n_modes > target.shape[0]:
+            raise ValueError(
+                f"n_modes must be less than or equal to the rank of the dataset (rank = {target.shape[0]})."
+            )
+
+        def _eigh_descending(A, n_modes):
+            eigvals, eigvecs = np.linalg.eigh(A)
+            idx = np.argsort(eigvals)[::-1][:n_modes]
+            return eigvecs[:, idx], eigvals[idx]
+
+        U, lbda = xr.apply_ufunc(
+            _eigh_descending,
+            target,
+            kwargs={"n_modes": n_modes},
+            input_core_dims=[("feature1", "dummy")],
+            output_core_dims=[("feature1", "mode"), ("mode",)],
+            vectorize=False,
+            dask="allowed",
         )
-        eigensolver.fit(target, dims=("feature1", "dummy"))
-        U = eigensolver.U_
+        mode_coords = np.arange(1, n_modes + 1)
+        U = U.assign_coords(mode=mode_coords)
         # -> U (feature1 x mode)
-        lbda = eigensolver.s_
+        lbda = lbda.assign_coords(mode=mode_coords)
         # -> lbda (mode)
         # U, lbda, ct = xr.apply_ufunc(
         #     np.linalg.svd,
